@@ -55,16 +55,16 @@ const (
 
 // Rec is one logged operation.
 type Rec struct {
-	Index int    `json:"i"`              // position in the log (order of execution)
-	Op    vfs.Op `json:"op"`             //
-	Path  string `json:"path"`           // file path as given to the FS (for file ops: the path used to open it)
+	Index int    `json:"i"`               // position in the log (order of execution)
+	Op    vfs.Op `json:"op"`              //
+	Path  string `json:"path"`            // file path as given to the FS (for file ops: the path used to open it)
 	Path2 string `json:"path2,omitempty"` // Rename: destination
-	Len   int    `json:"len,omitempty"`  // Write/WriteAt/WriteFile: byte length
-	Off   int64  `json:"off,omitempty"`  // WriteAt: offset; Truncate: new size
-	Flag  int    `json:"flag,omitempty"` // OpenFileHandle flags
-	Mut   bool   `json:"mut"`            // may change what a directory copy contains
-	Done  bool   `json:"done"`           // the operation has returned
-	Err   string `json:"err,omitempty"`  // its error, if any
+	Len   int    `json:"len,omitempty"`   // Write/WriteAt/WriteFile: byte length
+	Off   int64  `json:"off,omitempty"`   // WriteAt: offset; Truncate: new size
+	Flag  int    `json:"flag,omitempty"`  // OpenFileHandle flags
+	Mut   bool   `json:"mut"`             // may change what a directory copy contains
+	Done  bool   `json:"done"`            // the operation has returned
+	Err   string `json:"err,omitempty"`   // its error, if any
 }
 
 // Phase says where a capture sits relative to its operation.
